@@ -480,6 +480,7 @@ func c03CatPair(thorough bool) *c03Cat {
 			{"r.*", c3f("t2.*")},
 			{"b+1ASx,c", c3f(c3as(c3plus(c3c("b"), c3i(1)), "x"), "c")},
 			{"a-cols", c3f(c3as(c3c(a1), "a1"), c3as(c3c(a2), "a2"))},
+			{"first-col,computed,last-col", c3f(c3as(c3c(a1), "k"), c3as(c3plus(c3c("b"), c3i(1)), "x"), c3as(c3plus(c3c(a1), c3i(10)), "y"), "t2.c")},
 			{"dup-then-later", c3f(c3as(c3c(a1), "k1"), c3as(c3c(a1), "k2"), "t1.b", "t2.c")},
 			{"later-dup", c3f("t1.b", c3as(c3c("t2.c"), "c1"), c3as(c3c("t2.c"), "c2"))},
 		}
